@@ -262,8 +262,9 @@ def r4_pruning(ctx, rep, R='C14.R4'):
     rep.check(ok, R, 'find_test_files_: dirs[:] = [d for d in dirs if identifier(d) and d not in '
               'IGNORE_FOLDERS]', why, key='prune:find', func=ff.qualname, where=ctx.where(ff, ff.node))
     ig = m.module('find').constants.get('IGNORE_FOLDERS')
-    okc = ig is not None and isinstance(ig, (ast.Set, ast.Tuple, ast.List)) and \
-        {'.git', 'node_modules', '__pycache__'} <= {e.value for e in ig.elts if isinstance(e, ast.Constant)}
+    from .common import literal_elements
+    okc = ig is not None and literal_elements(ig) is not None and \
+        {'.git', 'node_modules', '__pycache__'} <= set(literal_elements(ig))
     rep.check(okc, R, 'IGNORE_FOLDERS contains .git, node_modules, __pycache__',
               'IGNORE_FOLDERS changed', key='prune:constant', func='find')
     ident = m.module('find').constants.get('identifier')
